@@ -1667,7 +1667,11 @@ func (m *LeafList) setUnits(u string) {
 }
 
 func (m *LeafList) Default() []string {
-	return m.defaultVals
+	if m.defaultVals == nil {
+		return nil
+	}
+	// a copy, what is handed out ends up in data trees whose owners are free to change it
+	return append([]string{}, m.defaultVals...)
 }
 
 func (m *LeafList) HasDefault() bool {
@@ -2283,7 +2287,11 @@ func (m *Refine) setPresence(p string) {
 }
 
 func (m *Refine) Default() []string {
-	return m.defaultVals
+	if m.defaultVals == nil {
+		return nil
+	}
+	// a copy, what is handed out ends up in data trees whose owners are free to change it
+	return append([]string{}, m.defaultVals...)
 }
 
 func (m *Refine) HasDefault() bool {
@@ -3362,7 +3370,11 @@ func (m *AddDeviate) setUnits(u string) {
 }
 
 func (m *AddDeviate) Default() []string {
-	return m.defaultVals
+	if m.defaultVals == nil {
+		return nil
+	}
+	// a copy, what is handed out ends up in data trees whose owners are free to change it
+	return append([]string{}, m.defaultVals...)
 }
 
 func (m *AddDeviate) HasDefault() bool {
@@ -3487,7 +3499,11 @@ func (m *ReplaceDeviate) setUnits(u string) {
 }
 
 func (m *ReplaceDeviate) Default() []string {
-	return m.defaultVals
+	if m.defaultVals == nil {
+		return nil
+	}
+	// a copy, what is handed out ends up in data trees whose owners are free to change it
+	return append([]string{}, m.defaultVals...)
 }
 
 func (m *ReplaceDeviate) HasDefault() bool {
@@ -3573,7 +3589,11 @@ func (m *DeleteDeviate) setUnits(u string) {
 }
 
 func (m *DeleteDeviate) Default() []string {
-	return m.defaultVals
+	if m.defaultVals == nil {
+		return nil
+	}
+	// a copy, what is handed out ends up in data trees whose owners are free to change it
+	return append([]string{}, m.defaultVals...)
 }
 
 func (m *DeleteDeviate) HasDefault() bool {
